@@ -407,9 +407,11 @@ fn run_chunk<V: Variant, W: Variant>(seed: u64, run: u64, key_index: usize, chun
         let mut v = Vec::new();
         for (oi, op) in plan.threads[0].iter().enumerate() {
             if let (Op::Sign { msg, .. }, Some(sp)) = (op, op.sign_plan()) {
-                // every other signature is made through a fresh clone of the key (a clone per request):
+                // the later signatures are made through fresh clones of the key (a clone per request):
                 // whatever a key object carries besides the key must not be shared by its copies
-                let through_clone = if oi % 2 == 1 { Some(keys[0].0.clone()) } else { None };
+                // (second half of the history only: the first half stays with the one key object, at its one
+                // address, so that whatever was remembered about an earlier occupant of that address stays in use)
+                let through_clone = if oi >= plan.threads[0].len() / 2 { Some(keys[0].0.clone()) } else { None };
                 let signer = through_clone.as_ref().unwrap_or(&keys[0].0);
                 let (r, trace) = crate::world::sign_sim::<V>(signer, msg, &sp, None);
                 v.push(match r {
